@@ -153,3 +153,104 @@ Proof.
   unfold wf, nonempty, in_range, mem, py_mk, GEN_MIN, GEN_MAX; cbn [fst snd].
   repeat split; try Lia.lia; try (right; reflexivity); exists 5; cbn; Lia.lia.
 Qed.
+
+(* ------------------------------------------------------------------------------------------------
+   Conversion clause, floating point (C11 extender).  The binary64 operation sequence of
+   TimeConverter.nsec_to_astropy / astropy_to_nsec (incl. astropy's Time.__sub__, TimeDelta, day_frac,
+   two_sum, two_product, split and numpy's round) is the term Model/TimeConv.v, written once over an
+   abstract record of operations.  Here it is instantiated (Model/TimeConvR.v) with
+     RN x = round radix2 (FLT_exp (-1074) 53) ZnearestE x      (Flocq: IEEE 754 binary64, nearest-even)
+   applied to the exact result of every +, -, *, / ; the SAME term instantiated with Coq's primitive
+   floats is compared bit for bit with Python on every run (Model/TimeConvPrim.v, harness/props/c11.py).
+   These theorems depend on the standard library's axioms for the real numbers (named by Print
+   Assumptions below); the 29 theorems above do not. *)
+From Coq Require Import Reals.
+From Flocq Require Import Core.
+From V Require Import Model.TimeConv Model.TimeConvR Proofs.TimeConvProofs Proofs.TimeConvProofs2 Proofs.TimeConvProofs3.
+Open Scope Z_scope.
+
+(* the constants of the conversion model are the regenerated bounds of the Timespan model *)
+Theorem conv_range_is_timespan_range : TC_MAX_NSEC = GEN_MAX /\ 0 = GEN_MIN /\ TC_MAX_NSEC = 47482 * TC_NPD.
+Proof. repeat split. Qed.
+Print Assumptions conv_range_is_timespan_range.
+
+(* MAIN: nsec -> astropy (jd1, jd2) -> nsec is the identity for EVERY integer of the supported range *)
+Theorem conv_roundtrip_float : forall n : Z, 0 <= n <= TC_MAX_NSEC -> conv_roundtrip n = n.
+Proof. exact conv_roundtrip_float_p. Qed.
+Print Assumptions conv_roundtrip_float.
+
+(* hence order-preserving through the round trip ... *)
+Theorem conv_monotone_float : forall n1 n2 : Z,
+  0 <= n1 -> n1 < n2 -> n2 <= TC_MAX_NSEC -> conv_roundtrip n1 < conv_roundtrip n2.
+Proof. intros n1 n2 H0 H1 H2. rewrite !conv_roundtrip_float_p by Lia.lia. exact H1. Qed.
+Print Assumptions conv_monotone_float.
+
+(* ... and the astropy times themselves are strictly increasing for astropy's Time.__lt__
+   ((jd1 - jd1') + (jd2 - jd2') < 0.0 in binary64) *)
+Theorem conv_order_float : forall n1 n2 : Z,
+  0 <= n1 -> n1 < n2 -> n2 <= TC_MAX_NSEC ->
+  tc_time_lt R r_ops (tc_nsec_to_jd R r_ops n1) (tc_nsec_to_jd R r_ops n2) = true.
+Proof. exact order_R. Qed.
+Print Assumptions conv_order_float.
+
+(* nsec_to_astropy: jd1 is exactly the day number, jd2 is a binary64 number in [-1/2, 1/2] within
+   2^-52 day (0.02 ns) of the exact day fraction minus 1/2; the `while jd2 > 0.5` loop is never entered *)
+Theorem conv_nsec_to_jd_float : forall n : Z, 0 <= n <= TC_MAX_NSEC ->
+  exists j2 : R,
+    tc_nsec_to_jd R r_ops n = (IZR (TC_EPOCH_JD1 + n / TC_NPD), j2)
+    /\ generic_format radix2 b64_exp j2 /\ (Rabs j2 <= / 2)%R
+    /\ (Rabs (j2 - (IZR (n mod TC_NPD) / IZR TC_NPD - / 2)) <= bpow radix2 (-52))%R.
+Proof. exact fwd_R. Qed.
+Print Assumptions conv_nsec_to_jd_float.
+
+(* astropy_to_nsec decodes to the nearest nanosecond: for ANY TAI time with integral jd1 in range and a
+   binary64 jd2 in [-1/2, 1/2] within 2^-48 day (0.3 ns) of k nanoseconds past midnight it returns
+   exactly D * NPD + k; neither clamp is taken (except max_time onto itself) *)
+Theorem conv_to_nsec_nearest_float : forall (D k : Z) (j2 : R),
+  0 <= D -> 0 <= k < TC_NPD -> D * TC_NPD + k <= TC_MAX_NSEC ->
+  generic_format radix2 b64_exp j2 -> (Rabs j2 <= / 2)%R ->
+  (Rabs (j2 - (IZR k / IZR TC_NPD - / 2)) <= bpow radix2 (-48))%R ->
+  tc_jd_to_nsec R r_ops (IZR (TC_EPOCH_JD1 + D), j2) = D * TC_NPD + k.
+Proof. exact to_nsec_R. Qed.
+Print Assumptions conv_to_nsec_nearest_float.
+
+(* astropy's two_sum is an error-free transformation in binary64 (Flocq's TwoSum_correct) *)
+Theorem conv_two_sum_exact : forall a b : R,
+  generic_format radix2 b64_exp a -> generic_format radix2 b64_exp b ->
+  tc_two_sum R r_ops a b = (RN (a + b), (a + b - RN (a + b))%R).
+Proof. exact two_sum_R. Qed.
+Print Assumptions conv_two_sum_exact.
+
+(* astropy's day_frac (with and without divisor=1.0): an integral day and a binary64 fraction whose sum
+   is v1 + v2 up to 2^-54, for all binary64 v1, v2 with |v1 + v2| <= 2^23 *)
+Theorem conv_day_frac_float : forall v1 v2 : R,
+  generic_format radix2 b64_exp v1 -> generic_format radix2 b64_exp v2 ->
+  (Rabs (v1 + v2) <= bpow radix2 23)%R ->
+  exists (dz : Z) (fr : R),
+    tc_day_frac R r_ops v1 v2 = (IZR dz, fr) /\ tc_day_frac_div R r_ops v1 v2 1%R = (IZR dz, fr)
+    /\ generic_format radix2 b64_exp fr /\ (Rabs fr <= 1)%R
+    /\ (Rabs (IZR dz + fr - (v1 + v2)) <= bpow radix2 (-54))%R /\ Z.abs dz <= 8388610.
+Proof. exact day_frac_R. Qed.
+Print Assumptions conv_day_frac_float.
+
+(* non-vacuity: the hypotheses of the conversion theorems are met *)
+Example conv_examples :
+  conv_roundtrip 0 = 0 /\ conv_roundtrip TC_MAX_NSEC = TC_MAX_NSEC
+  /\ conv_roundtrip 1234567890123456789 = 1234567890123456789.
+Proof.
+  split; [|split].
+  - apply conv_roundtrip_float_p. unfold TC_MAX_NSEC. Lia.lia.
+  - apply conv_roundtrip_float_p. unfold TC_MAX_NSEC. Lia.lia.
+  - apply conv_roundtrip_float_p. unfold TC_MAX_NSEC. Lia.lia.
+Qed.
+
+Example conv_to_nsec_example : tc_jd_to_nsec R r_ops (IZR (TC_EPOCH_JD1 + 0), (- / 2)%R) = 0 * TC_NPD + 0.
+Proof.
+  apply (to_nsec_R 0 0 (- / 2)%R).
+  - Lia.lia.
+  - unfold TC_NPD. Lia.lia.
+  - unfold TC_NPD, TC_MAX_NSEC. Lia.lia.
+  - apply generic_format_opp, fmt_half.
+  - rewrite Rabs_Ropp, Rabs_pos_eq; Lra.lra.
+  - unfold TC_NPD. replace (- / 2 - (0 / 86400000000000 - / 2))%R with 0%R by Lra.lra. rewrite Rabs_R0. apply bpow_ge_0.
+Qed.
